@@ -22,6 +22,7 @@ typedef struct simrng {
     uint64_t armed_at;    /* value of `calls` when the script was armed */
     /* counters */
     uint64_t calls, ok_calls, bytes, eintr, eagain, perm;
+    volatile long *perm_observer; /* when set: incremented for every permanent failure delivered (may live in shared memory) */
 } simrng_t;
 
 simrng_t *simrng_cur(void);          /* state used by the calling thread */
